@@ -122,8 +122,8 @@ func c19fRun(c c19fCase) (v *verdict, labels []string) {
 	before := snapshot(filepath.Join(dir, "work"))
 	tmpBefore, _ := os.ReadDir(box.Tmp)
 	res := h.Run(h.Cmd{Dir: src, Env: box.Env(h.Config{}), Args: append(append([]string{box.GarbleBin}, flag...), args...), Timeout: 15 * 60e9})
-	if res.TimedOut {
-		rc.Abort("garble timed out: %s", res.Brief())
+	if res.TimedOut || res.Exit < 0 {
+		rc.Abort("garble timed out or was killed from outside: %s", res.Brief())
 	}
 	describe := fmt.Sprintf("target %s, garble %s %s\n%s", c.Target, strings.Join(flag, " "), strings.Join(args, " "), res.Brief())
 	if d := diffSnap(before, snapshot(filepath.Join(dir, "work")), func(string) bool { return false }); len(d) > 0 {
